@@ -7,7 +7,7 @@
     What is NOT proved here (runtime, sampled by the check / node harness): the wall-clock jitter
     of the 2 s driver and the propagation of an expiry to the other nodes ("then everywhere"). *)
 From RN Require Import Base.Res Base.AMap Naming.Service Naming.ServiceProofs Naming.Timeout Naming.Filter
-  Naming.Actor Naming.IndexProofs Naming.ActorProofs Naming.OwnershipProofs Naming.ExpiryProofs Naming.Script
+  Naming.Actor Naming.IndexProofs Naming.ActorProofs Naming.BudgetProofs Naming.OwnershipProofs Naming.ExpiryProofs Naming.Script
   Naming.ScriptProofs Naming.ExpiryTraceProofs Naming.ArmedProofs Naming.Regression.
 Local Open Scope N_scope.
 
@@ -86,6 +86,43 @@ Theorem C13_expires_after_silence : forall c hashf a k ik i q1 q2,
   (stored a2 k ik = None \/ stored a2 k ik = Some (set_healthy i false)) /\
   (i_lm i + c_inst c <= a_now a3 -> stored (time_check c a3) k ik = None).
 Proof. exact expires_after_silence. Qed.
+
+(** the per-round budget once_time_check_size ([time_check_budget c n order]: services visited in
+    the iteration order [order] of the service map - any order - until the number of handled keys
+    reaches [n]).  No due entry is ever dropped: a round handles a service completely, exactly as
+    the unbudgeted tick does, or leaves it (instances and both time-out sets) untouched *)
+Theorem C13_budget_never_drops_due_entries : forall c n order a k s,
+  sget k (a_svcs a) = Some s ->
+  let a' := time_check_budget c n order a in
+  (In k (visited c n order a) /\ sget k (a_svcs a') = Some (fst (fst (tc_svc c (a_now a) s)))) \/
+  (~ In k (visited c n order a) /\ sget k (a_svcs a') = Some s).
+Proof. exact budget_never_drops_due_entries. Qed.
+
+(** the first service in the order is always handled, and a round that leaves a service out has
+    handled at least [n] keys *)
+Theorem C13_budget_first_visited : forall c n k r a,
+  sget k (a_svcs a) <> None -> In k (visited c n (k :: r) a).
+Proof. exact budget_first_visited. Qed.
+
+Theorem C13_budget_incomplete_costs : forall c n order a,
+  NoDup order -> NoDup (akeys (a_svcs a)) -> (forall k, sget k (a_svcs a) <> None -> In k order) ->
+  complete c n order a = false -> (N.to_nat n <= handled c n order a)%nat.
+Proof. exact budget_incomplete_costs. Qed.
+
+(** a round that visits every service is the unbudgeted tick (to which all theorems above apply) *)
+Theorem C13_budget_complete_is_time_check : forall c n order a,
+  NoDup (akeys (a_svcs a)) ->
+  (forall k, sget k (a_svcs a) <> None -> In k (visited c n order a)) ->
+  a_svcs (time_check_budget c n order a) = a_svcs (time_check c a).
+Proof. exact budget_complete_is_time_check. Qed.
+
+(** during silence (only the clock and the driver run), whatever the orders: budget * (number of
+    rounds cut short) <= Phi = sum over services of 2*|healthy set| + |unhealthy set|; so among
+    any Phi/n + 1 consecutive rounds one is complete and every due instance is handled by it *)
+Theorem C13_budget_rounds_bound : forall c n sched a,
+  Inv a -> Forall (fun r => order_ok a (snd r)) sched ->
+  (N.to_nat n * incomplete_rounds c n a sched <= Phi a)%nat.
+Proof. exact budget_rounds_bound. Qed.
 
 (** take-over (after the repair 0b8b679): an instance synced from another node, in a service of
     the range this node takes over, becomes locally owned, comes under the clock and is queued *)
